@@ -16,10 +16,12 @@ Definition norm_to_op (n : rnorm) : option op :=
 
 Definition unimodular (r : m3) : bool := (mdet r =? 1) || (mdet r =? -1).
 
-(* n g n^-1 in G for every g in G *)
+(* op_inv n is a two-sided inverse of n, and n g n^-1 as well as n^-1 g n lie in G for every g in G *)
+Definition idop : op := (mid, (0, 0, 0)).
 Definition normalises (G : list op) (n : op) : bool :=
   let ni := op_inv n in
-  forallb (fun g => op_mem (op_compose n (op_compose g ni)) G) G.
+  op_eqb (op_compose n ni) idop && op_eqb (op_compose ni n) idop
+  && forallb (fun g => op_mem (op_compose n (op_compose g ni)) G && op_mem (op_compose ni (op_compose g n)) G) G.
 
 (* ---------- metric ------------------------------------------------------------------------ *)
 (* a basis of the space of metric tensors of a generic lattice of the crystal system, in the
@@ -239,3 +241,22 @@ Definition chk_info (t : sgtable) : bool :=
     && opt_str_eqb (pg_of_census (census G)) (Some (i_pg (sg_info t)))
     && opt_str_eqb (bravais_family (i_bravais (sg_info t))) (Some (family_letter (sg_num t)))
     && opt_str_eqb (merged_centring (i_bravais (sg_info t))) (centring_class tr)).
+
+(* ---------- further clauses used by C05 / C06 ------------------------------------------------- *)
+(* every operation of the group itself preserves every metric of the crystal system *)
+Definition group_inverses (G : list op) : bool :=
+  forallb (fun g => op_mem (op_inv g) G && op_eqb (op_compose g (op_inv g)) idop && op_eqb (op_compose (op_inv g) g) idop) G.
+Definition chk_group_isometries (t : sgtable) : bool :=
+  with_table t false (fun tr ws G => forallb (fun g => preserves_metric (sg_num t) (fst g)) G && group_inverses G).
+
+(* the letter permutations (identity + tabulated) contain inverses; also among the proper ones *)
+Definition perms_inverses (letters : list string) (ps : list (list (string * string))) : bool :=
+  let all := perm_id letters :: ps in
+  forallb (fun p => existsb (fun q => perm_eq_on letters (perm_compose p q) (perm_id letters)
+                                      && perm_eq_on letters (perm_compose q p) (perm_id letters)) all) all.
+Definition proper_norms (t : sgtable) : list rnorm :=
+  filter (fun rn => match norm_to_op rn with Some n => mdet (fst n) =? 1 | None => false end) (sg_norms t).
+Definition chk_perm_inverses (t : sgtable) : bool :=
+  with_table t false (fun tr ws G =>
+    perms_inverses (map iw_letter ws) (map n_perm (sg_norms t))
+    && perms_inverses (map iw_letter ws) (map n_perm (proper_norms t))).
